@@ -43,16 +43,20 @@ def cfg_from_payload(d):
 class Batch:
     """collects (cfg, chunks, tape) model requests and resolves them in one driver run"""
 
-    def __init__(self, model):
+    def __init__(self, model, camp=None, pid=None, limit=600):
         self.model = model
         self.reqs = []
         self.meta = []
+        # with a campaign given, the batch is resolved every [limit] requests so that memory stays bounded
+        self.camp, self.pid, self.limit = camp, pid, limit
 
     def add(self, cfg, chunks, tape, real, want_screen, tag):
         if self.model is None:
             return
         self.reqs.append(model_request(cfg, chunks, tape, want_screen))
         self.meta.append((cfg, chunks, real, want_screen, tag))
+        if self.camp is not None and len(self.reqs) >= self.limit:
+            self.resolve(self.camp, self.pid)
 
     def resolve(self, camp, pid):
         if self.model is None or not self.reqs:
